@@ -11,7 +11,7 @@ RULE = ("ops: layout (frame 1..64 bytes, 0..8 in-frame signals, Intel/Motorola m
         "x FD flag) ; compress (frames whose signals share one byte order and do not overlap, random gaps; mixed frames as a no-op "
         "check). Exhaustive part: every gap pattern of frames <= 2 bytes built from 1..4 Motorola or Intel signals (quick: 1 byte). "
         "For dlc the frame stands in a matrix among 0..3 other frames. "
-        "Non-trivial = distinct case with at least one signal and (for compress/dummies) at least one gap.")
+        "case 'dummies2' = pad, take the first signal out, pad again. Non-trivial = distinct case with at least one signal and (for compress/dummies) at least one gap.")
 EXHAUSTIVE = {"quick": False, "thorough": False}
 PARTIAL = ["compress: the theorems (compress_big_*, compress_little_*) are about frames of one byte order with disjoint, uniquely named "
            "signals inside the frame; termination of the two Python while-loops is the model's fuel bound (proved sufficient) plus a "
@@ -56,7 +56,7 @@ def gen(rng, tier, shard, nshards):
         if k < 0.25:
             yield {"op": "layout", "c": {"f": gen_frame(rng, rng.random() < 0.5)}}
         elif k < 0.5:
-            yield {"op": "dummies", "c": {"f": gen_frame(rng, rng.random() < 0.8, sizes=[1, 2, 3, 4, 8, 8, 12, 64]), "name": "Fr"}}
+            yield {"op": "dummies" if rng.random() < 0.7 else "dummies2", "c": {"f": gen_frame(rng, rng.random() < 0.8, sizes=[1, 2, 3, 4, 8, 8, 12, 64]), "name": "Fr"}}
         elif k < 0.7:
             n = rng.randint(1, 64)
             fd = {"size": rng.choice([0, rng.randint(0, 64), n]),
@@ -152,6 +152,13 @@ def observe(case):
     if op == "dummies":
         fr.create_dummy_signals()
         return [sig5(s) for s in fr.signals]
+    if op == "dummies2":
+        fr.create_dummy_signals()
+        if fr.signals:
+            fr.signals.pop(0)
+        mid = [sig5(s) for s in fr.signals]
+        fr.create_dummy_signals()
+        return {"mid": mid, "after": [sig5(s) for s in fr.signals]}
     if op == "dlc":
         db = cm.CanMatrix()
         k = 0
